@@ -11,6 +11,8 @@ import collections
 import hashlib
 import json
 import os
+import re
+import subprocess
 import sys
 import time
 import traceback
@@ -56,6 +58,10 @@ def make_world(prop, tier):
 def do_replay(path):
     with open(path) as f:
         doc = json.load(f)
+    flags = doc.get('interpreter_flags') or []
+    if flags and not sys.flags.optimize:
+        # recorded under an interpreter started with -O / -OO: replay it the same way
+        os.execv(sys.executable, [sys.executable] + flags + [os.path.abspath(__file__), '--replay', path])
     world = make_world(doc['property'], doc.get('tier', 'quick'))
     core.run_prelude(world, doc.get('prelude'))
     v = core.replay_ops(world, doc.get('leg', 'main'), doc['config'], doc['ops'], strict=True)
@@ -194,6 +200,25 @@ def main():
         print('SIGNATURE %s (%d runs, trace not minimised)' % (sig, n))
         print('VIOLATION property=%s replay=%s' % (args.prop, path))
 
+    # ---- deployment pass: the first runs of every leg once more in an interpreter started with -O (assert statements stripped) ----
+    deploy = None
+    if not sys.flags.optimize and not os.environ.get('VERIF_NO_DEPLOY_PASS') and not args.max_runs and not args.leg:
+        n_dep = 150 if args.tier == 'quick' else 3000
+        cmd = [sys.executable, '-O', os.path.abspath(__file__), args.prop, '--tier', args.tier, '--no-evidence', '--max-runs', str(n_dep),
+               '--budget-s', str(25 if args.tier == 'quick' else 240), '--workers', str(args.workers)]
+        p = subprocess.run(cmd, capture_output=True, text=True, timeout=3600)
+        m = re.search(r': (\d+) runs \((\d+) skipped\), (\d+) evaluations', p.stdout)
+        deploy = {'interpreter_flags': ['-O'], 'exit': p.returncode, 'runs': int(m.group(1)) if m else 0, 'evaluations': int(m.group(3)) if m else 0,
+                  'what': 'the first %d runs of every leg executed again in an interpreter started with -O' % n_dep}
+        if p.returncode not in (0, 1):
+            print('HARNESS-ERROR: deployment pass (-O) failed:\n%s' % (p.stdout[-1500:] + p.stderr[-1500:]))
+            return 2
+        dep_lines = [l for l in p.stdout.splitlines() if l.startswith(('SIGNATURE ', '  step ', 'VIOLATION '))]
+        for l in dep_lines:
+            print(l)
+        if p.returncode == 1:
+            by_sig.setdefault('deployment-pass', []).append(None)
+
     # ---- evidence ----
     counters = collections.Counter()
     shapes = set()
@@ -232,6 +257,7 @@ def main():
             'real_code': world.real_code, 'stubs': world.stubs,
             'world': world.name, 'repo_commit': commit, 'python_hash_seed': os.environ.get('PYTHONHASHSEED'),
             'model_selftest': 'passed',
+            'deployment_pass': deploy,
         },
         'assumptions': world.assumptions(),
     }
